@@ -114,7 +114,20 @@ func VerifURL() {
 	n := vRange("n", 0, vParam("N", 3))
 	b := vBytes("b", n)
 	orig := append([]byte(nil), b...)
-	switch vRange("op", 0, 2) {
+	switch vRange("op", 0, 3) {
+	case 3: // arbitrary bytes: no panic, never longer, bytes without '%' and '+' pass through
+		dec := DecodeURL(append([]byte(nil), b...))
+		vAssert(len(dec) <= n, "decodeurl-longer")
+		plain := true
+		for _, c := range orig {
+			if c == '%' || c == '+' {
+				plain = false
+			}
+		}
+		if plain {
+			vAssert(string(dec) == string(orig), "decodeurl-changes-plain-text")
+		}
+		vReach("decode-any")
 	case 0:
 		table := URLEncodingTable
 		if vRange("table", 0, 1) == 1 {
